@@ -701,6 +701,90 @@ def c08_badname(api: int, bad: int) -> bool:
     return True
 
 
+# ---- additions AFTER a name has already been resolved (history of additions through the API) ---------------------
+# (round d seed C08-d: a per-context memo of resolved selectors that registration never invalidates)
+LATE_LOG = []
+
+
+def _lw_first(x=-1):
+  LATE_LOG.append(('first', x))
+  return x
+
+
+def _lw_second(x=-2):
+  LATE_LOG.append(('second', x))
+  return x
+
+
+if 'vw08l.alpha.lw' not in gc._REGISTRY:
+  gin.external_configurable(_lw_first, 'lw', module='vw08l.alpha')
+
+
+def _late_use(api, spelling, value):
+  """One use of `spelling` (a selector, without parameter) through one API; returns ('ok', what) / ('exc', type)."""
+  if api == 0:
+    return _try(lambda: gin.bind_parameter(spelling + '.x', value))
+  if api == 1:
+    return _try(lambda: gin.query_parameter(spelling + '.x'))
+  if api == 2:
+    return _try(lambda: gin.config.parse_value('@' + spelling))
+  if api == 3:
+    return _try(lambda: gin.get_configurable(spelling))
+  if api == 4:
+    return _try(lambda: gin.parse_config('%s.x = %d\n' % (spelling, value)))
+  return _try(lambda: gin.get_bindings(spelling))
+
+
+def c08_late(first: int, api: int, sp: int) -> bool:
+  """
+  pre: 0 <= first < 7 and 0 <= api < 6 and 0 <= sp < 2
+  """
+  first, api, sp = rt.pick(first, 7), rt.pick(api, 6), rt.pick(sp, 2)
+  spelling = ['lw', 'alpha.lw'][sp]          # the second stays unique after the addition, the first does not
+  rt.sig(('late', first, api, sp), nontrivial=True)
+  v1, v2 = 11, 22                            # concrete: the values travel through config text
+  with rt.native():
+    world.fresh()
+    del LATE_LOG[:]
+    reg_before = sorted(gc._REGISTRY._selector_map)
+    try:
+      gin.bind_parameter('vw08l.alpha.lw.x', v1)
+      # 1. the name is resolved once while it is unique (first == 6: not at all)
+      if first < 6:
+        r = _late_use(first, spelling, v1)
+        if r[0] != 'ok':
+          return rt.no('%r not resolved while unique (api %d): %r' % (spelling, first, r))
+      # 2. an addition: a second configurable whose full name ends with the same component
+      gin.external_configurable(_lw_second, 'lw', module='vw08l.beta')
+      # 3. the same spelling again, through any API
+      r = _late_use(api, spelling, v2)
+      if sp == 0:
+        if r[0] != 'exc':
+          return rt.no("'lw' matches two entries after the addition but api %d resolved it (first use: api %d)"
+                       % (api, first))
+      else:
+        if r[0] != 'ok':
+          return rt.no("'alpha.lw' is still unique after the addition but api %d rejected it: %r" % (api, r))
+      # the complete names keep addressing their own entry
+      gin.bind_parameter('vw08l.beta.lw.x', v2 + 100)
+      exp_first = v2 if (sp == 1 and api in (0, 4)) else v1
+      if gin.query_parameter('vw08l.alpha.lw.x') != exp_first:
+        return rt.no('the binding of alpha.lw changed to %r' % (gin.query_parameter('vw08l.alpha.lw.x'),))
+      got = (gin.get_configurable('vw08l.alpha.lw')(), gin.get_configurable('vw08l.beta.lw')())
+      if got != (exp_first, v2 + 100):
+        return rt.no('the two entries received %r' % (got,))
+    finally:
+      for n in [n for n in gc._REGISTRY._selector_map if n not in reg_before]:
+        gc._REGISTRY.pop(n)
+      gc._INVERSE_REGISTRY.pop(_lw_second, None)
+      # a context-level memo (if any) must not leak into the next path either
+      ctx = gc._PARSE_CONTEXTS[0]
+      for attr in list(vars(ctx)):
+        if isinstance(getattr(ctx, attr), dict) and attr not in ('_symbol_table', '_symbol_source'):
+          getattr(ctx, attr).clear()
+    return True
+
+
 # every spelling of a macro reference / definition is one key for the finalize hooks too
 from vf.harness.c05 import c05_prefix as c08_refkey  # noqa: E402  (same harness, claimed under C08 as well)
 
@@ -710,6 +794,18 @@ def _names(nvoc):
 
 
 HARNESSES = {
+    'c08_late': dict(
+        fn='c08_late',
+        anchors=['gin.config:get_configurable', 'gin.selector_map:get_match', 'gin.config:parse'],
+        smoke=[dict(first=0, api=1, sp=0), dict(first=2, api=4, sp=1), dict(first=6, api=3, sp=0),
+               dict(first=5, api=5, sp=0)],
+        tiers={'quick': dict(split=dict(first=list(range(7))), budget_s=100),
+               'thorough': dict(split=dict(first=list(range(7)), api=list(range(6))), budget_s=200)},
+        bounds='a name resolved once while unique (through bind_parameter / query_parameter / parse_value / '
+               'get_configurable / parse_config / get_bindings, or not at all), then a second configurable whose '
+               'full name ends with the same component is registered, then the same spelling is used again through '
+               'each of the 6 APIs: the now ambiguous short spelling must be rejected, the still unique longer one '
+               'must resolve, and the complete names keep their own bindings'),
     'c08_step': dict(
         fn='c08_step',
         anchors=['gin.selector_map:__setitem__', 'gin.selector_map:pop', 'gin.selector_map:copy',
